@@ -33,7 +33,7 @@ def run(args):
 
 def run_(args):
     m, p, wt = args
-    env = dict(os.environ, PYVC_REPO=wt, PYVC_EVIDENCE_DIR=f"/tmp/wtm/ev_{os.getpid()}_{m}", PYVC_REPLAY_DIR=f"/tmp/wtm/rp_{os.getpid()}_{m}")
+    env = dict(os.environ, PYVC_MATRIX_RUN="1", PYVC_REPO=wt, PYVC_EVIDENCE_DIR=f"/tmp/wtm/ev_{os.getpid()}_{m}", PYVC_REPLAY_DIR=f"/tmp/wtm/rp_{os.getpid()}_{m}")
     os.makedirs(env["PYVC_EVIDENCE_DIR"], exist_ok=True)
     try:
         r = subprocess.run(["python3-vt", "-m", "pyvc", "check", p], cwd=SNAP, env=env, capture_output=True, text=True, timeout=900)
